@@ -61,6 +61,9 @@ structure Input where
   enableTrunk : Bool
   /-- cluster eni-config: vSwitch ids and security groups; `none` = cannot be read -/
   cluster : Option (List String × List String)
+  /-- the pod template's first container already declares both device resources (`aliyun/eni`, `aliyun/member-eni`)
+      with this quantity, as request and as limit -/
+  pre : Option Nat := none
   deriving Repr
 
 inductive Resp where
@@ -137,6 +140,13 @@ def resourceOf (inp : Input) (nets : List Net) : Option (String × Nat) :=
   else
     let name := if inp.enableTrunk then (if nets.any (·.attachENI) then "eni" else "member-eni") else "eni"
     some (name, nets.length)
+
+/-- the device resources of the first container after admission: what the template declared, with the injected
+    request written over it (`setResourceRequest` assigns, it never keeps a declared quantity) -/
+def finalResources (pre : Option Nat) (res : Option (String × Nat)) : List (String × Nat) :=
+  match res with
+  | none => (match pre with | none => [] | some q => [("eni", q), ("member-eni", q)])
+  | some (n, k) => (match pre with | none => [] | some q => [("eni", q), ("member-eni", q)]).filter (fun e => e.1 != n) ++ [(n, k)]
 
 /-- `setNodeAffinityByZones(pod, prevZone, vSwitchZone)`: one `In` term per non-empty zone list, none for DaemonSet pods -/
 def zoneTerms (inp : Input) (prev vsz : List String) : List (List String) :=
